@@ -172,6 +172,17 @@ func (p *Permission) IsAllowed(hash util.Uint160, m *Manifest, method string) bo
 
 // UnmarshalJSON implements the json.Unmarshaler interface.
 func (p *Permission) UnmarshalJSON(data []byte) error {
+	// A missing (or null) member must not turn into a wildcard, which is the
+	// zero value of both fields.
+	raw := make(map[string]json.RawMessage)
+	if err := json.Unmarshal(data, &raw); err != nil {
+		return err
+	}
+	for _, name := range []string{"contract", "methods"} {
+		if v, ok := raw[name]; !ok || string(v) == "null" {
+			return fmt.Errorf("invalid permission: no %s", name)
+		}
+	}
 	aux := new(permissionAux)
 	if err := json.Unmarshal(data, aux); err != nil {
 		return err
